@@ -1,0 +1,11 @@
+//go:build verif
+
+// Contracts for the deductive checker in /verif (comment-only; compiled only with -tags verif).
+package slice
+
+//@ func StringSliceEqual
+//@   props C01 C19
+//@   modifies nothing
+//@   ensures result <==> (len(sl1) == len(sl2) && forall(k, 0, len(sl1), sl1[k] == sl2[k]))
+//@   loop 1 invariant iter <= len(sl1) && len(sl1) == len(sl2) && forall(k, 0, iter, sl1[k] == sl2[k])
+//@   loop 1 decreases len(sl1) - iter
